@@ -22,6 +22,10 @@ Oracles (each from one sentence of the statement of C08):
   `emmet.*` module.  Objects the *caller* holds (shared config dicts, `Config` objects, cache dicts) stay alive
   across the repetitions, so whatever they legitimately keep is in both snapshots.
 
+Round 2: markup histories that share a `cache` dict (clause markup-shared-cache) and histories in which a call raises inside
+*nested* snippet resolution (clause raise-inside-resolution, complete over the alias chains of the built-in html table);
+every expand call of a history runs under a CPU-time alarm and a memory cap (see `_outcome`, `_limit_memory`).
+
 A step is a JSON dict {'abbr', 'cfg' (plain config dict without cache), 'how': 'fresh' | 'dict' | 'Config',
 'obj': id of the shared caller object (for how != 'fresh'), 'cache': id of a shared cache dict or None}.
 
@@ -225,6 +229,12 @@ def reference(abbr, cfg):
     return _REF[k]
 
 
+def _describe(s):
+    return 'expand(%r, %s%s%s)' % (s['abbr'], json.dumps(s['cfg'], sort_keys=True),
+                                   '' if (s.get('how') or 'fresh') == 'fresh' else ' as shared %s #%s' % (s['how'], s['obj']),
+                                   '' if s.get('cache') is None else ' + shared cache #%s' % s['cache'])
+
+
 def check_history(steps, probe):
     objs, caches = {}, {}
     for s in steps:
@@ -232,9 +242,7 @@ def check_history(steps, probe):
     got = json.loads(json.dumps(_run_step(probe, objs, caches), default=repr))
     want = reference(probe['abbr'], probe['cfg'])
     if got != want:
-        hist = '; '.join('expand(%r, %s%s%s)' % (s['abbr'], json.dumps(s['cfg'], sort_keys=True),
-                                                  '' if (s.get('how') or 'fresh') == 'fresh' else ' as shared %s #%s' % (s['how'], s['obj']),
-                                                  '' if s.get('cache') is None else ' + shared cache #%s' % s['cache']) for s in steps + [probe])
+        hist = '; '.join(_describe(s) for s in steps + [probe])
         return 'after the history [%s] the last call gave %r, but the same call in a fresh interpreter gives %r' % (hist, got, want)
     return None
 
@@ -322,7 +330,7 @@ def check_retention(steps, repeats):
         gc.freeze()
         _FROZEN.append(True)
     objs, caches = {}, {}
-    hist = '; '.join('expand(%r, %s)' % (s['abbr'], json.dumps(s['cfg'], sort_keys=True)) for s in steps)
+    hist = '; '.join(_describe(s) for s in steps)
 
     def blown(o, rnd):
         # a repetition of calls that returned before does not return any more (or exhausts memory): whatever was kept from the
